@@ -27,6 +27,8 @@ func (c *checker) sample(e *sim.Ev) {
 	case "s.sample":
 		t1, t2, st, id := e.A, e.B, int(e.C), e.X
 		c.cov("leader-sample")
+		c.reportedTerm(e.S, e.Ep, t1, e.Seq, "CurrentTerm()")
+		c.reportedTerm(e.S, e.Ep, t2, e.Seq, "CurrentTerm()")
 		if t1 != t2 || id == "" || st != Follower {
 			return
 		}
